@@ -105,6 +105,9 @@ pub struct Profile {
     pub blank_block_lines: bool,
     /// instantiate bare parameters of `optional_fields` structs with Option types (known finding)
     pub known_optional_fields_generic: bool,
+    /// lifetimes, const parameters, `concrete(..)`, defaults that mention earlier parameters,
+    /// up to three type parameters (TS-only modules)
+    pub rich_generics: bool,
 }
 
 impl Profile {
@@ -143,6 +146,7 @@ impl Profile {
             unit_enum_bias: 0,
             blank_block_lines: false,
             known_optional_fields_generic: false,
+            rich_generics: false,
         }
     }
 }
@@ -329,7 +333,7 @@ fn is_copy(ty: &TyExpr) -> bool {
 impl Cx<'_> {
     fn flattenable(&self, idx: usize) -> bool {
         let td = &self.types[idx];
-        if !td.params.is_empty() {
+        if !td.params.is_empty() || !td.lifetimes.is_empty() || !td.consts.is_empty() {
             return false;
         }
         match &td.body {
@@ -354,12 +358,14 @@ impl Cx<'_> {
 
     fn struct_like(&self, idx: usize) -> bool {
         let td = &self.types[idx];
-        td.params.is_empty() && matches!(&td.body, Body::Named(fs) if fs.iter().any(|f| !f.skip && !f.flatten)) && td.attrs.tag.is_none()
+        td.params.is_empty() && td.lifetimes.is_empty() && td.consts.is_empty() && matches!(&td.body, Body::Named(fs) if fs.iter().any(|f| !f.skip && !f.flatten)) && td.attrs.tag.is_none()
     }
 
     fn unit_enum(&self, idx: usize) -> bool {
         let td = &self.types[idx];
         td.params.is_empty()
+            && td.lifetimes.is_empty()
+            && td.consts.is_empty()
             && td.attrs.repr() == Repr::External
             && matches!(&td.body, Body::Enum(vs) if !vs.is_empty() && vs.iter().all(|v| matches!(v.body, VBody::Unit) && !v.skip && !v.untagged))
     }
@@ -385,8 +391,27 @@ impl Cx<'_> {
         let idx = t.choose(self.types.len());
         let n = self.types[idx].params.len();
         let mut args = vec![];
-        for _ in 0..n {
-            args.push(self.gen_ty_inner(t, params, depth + 1, true));
+        for k in 0..n {
+            match self.types[idx].params[k].concrete.clone() {
+                Some(c) => args.push(c),
+                None => args.push(self.gen_ty_inner(t, params, depth + 1, true)),
+            }
+        }
+        // `optional_fields` decides the `?` on the concrete argument: an Option argument for a bare
+        // parameter would need skip_serializing_if on a field that is not an Option in the source
+        if self.types[idx].attrs.optional_fields.is_some() {
+            let td = &self.types[idx];
+            for (k, p) in td.params.iter().enumerate() {
+                let bare = td.all_fields().iter().any(|f| matches!(&f.ty, TyExpr::Param(n) if *n == p.name));
+                if bare {
+                    while let TyExpr::Option(inner) = &args[k] {
+                        args[k] = (**inner).clone();
+                    }
+                    if matches!(args[k], TyExpr::Param(_)) {
+                        args[k] = TyExpr::Prim("i32");
+                    }
+                }
+            }
         }
         Some(TyExpr::User(idx, args))
     }
@@ -738,10 +763,53 @@ impl Cx<'_> {
         let unusual = self.p.unusual_idents / 2;
         let ident = self.names.fresh(t, &[TYPE_NAMES, UNUSUAL_TYPE_NAMES], &[100 - unusual, unusual], "Ty");
         let mut params = vec![];
-        if t.pct(self.p.generics) {
+        let mut lifetimes = vec![];
+        let mut consts = vec![];
+        let mut const_first = false;
+        let mut const_default = false;
+        if self.p.rich_generics && t.pct(self.p.generics) {
+            let n = 1 + t.weighted(&[40, 40, 20]);
+            for i in 0..n {
+                params.push(Param { name: ["T", "U", "V"][i].to_string(), default: None, concrete: None });
+            }
+            if t.pct(30) {
+                lifetimes.push("'a".to_string());
+            }
+            if t.pct(35) {
+                consts.push("N".to_string());
+                const_first = t.pct(50);
+                const_default = t.pct(40);
+            }
+            // a default on the last parameter, possibly mentioning an earlier one
+            if t.pct(40) {
+                let d = if n >= 2 && t.pct(50) {
+                    let earlier = TyExpr::Param(params[t.choose(n - 1)].name.clone());
+                    match t.choose(3) {
+                        0 => TyExpr::Vec(Box::new(earlier)),
+                        1 => TyExpr::Option(Box::new(earlier)),
+                        _ => earlier,
+                    }
+                } else {
+                    let cands: Vec<usize> = (0..self.types.len()).filter(|i| self.types[*i].params.is_empty() && self.types[*i].lifetimes.is_empty() && self.types[*i].consts.is_empty()).collect();
+                    if !cands.is_empty() && t.pct(50) { TyExpr::User(*t.pick(&cands), vec![]) } else { TyExpr::Prim(*t.pick(&["i32", "String", "bool"])) }
+                };
+                params.last_mut().unwrap().default = Some(d);
+                // a const parameter without default cannot follow a defaulted type parameter
+                if !consts.is_empty() && !const_default {
+                    const_first = true;
+                }
+            }
+            // concretise one parameter that has no default
+            if t.pct(30) {
+                let k = t.choose(n);
+                if params[k].default.is_none() && !params.iter().any(|p| matches!(&p.default, Some(d) if mentions_param(d, &params[k].name))) {
+                    params[k].concrete = Some(TyExpr::Prim(*t.pick(&["i32", "String", "u64"])));
+                }
+            }
+        } else if !self.p.rich_generics && t.pct(self.p.generics) {
             let n = 1 + t.weighted(&[70, 30]);
             for i in 0..n {
-                params.push(Param { name: ["T", "U"][i].to_string(), default: None });
+                params.push(Param { name: ["T", "U"][i].to_string(), default: None, concrete: None });
             }
             if t.pct(25) {
                 let d = if !self.types.is_empty() && t.pct(40) {
@@ -902,10 +970,52 @@ impl Cx<'_> {
                 _ => Body::Tuple(vec![]),
             }
         };
-        let mut td = TypeDef { ident, params, body, attrs, docs };
+        let mut td = TypeDef { ident, lifetimes, consts, const_first, const_default, params, body, attrs, docs };
         fix_unused_params(&mut td);
+        use_lifetimes_and_consts(&mut td);
         sanitize_for_serde_camel(&mut td);
         td
+    }
+}
+
+fn mentions_param(ty: &TyExpr, p: &str) -> bool {
+    match ty {
+        TyExpr::Param(n) => n == p,
+        TyExpr::Prim(_) | TyExpr::SelfRef(_) => false,
+        TyExpr::Option(t) | TyExpr::Vec(t) | TyExpr::Array(t, _) | TyExpr::Wrap(_, t) => mentions_param(t, p),
+        TyExpr::Tuple(ts) => ts.iter().any(|t| mentions_param(t, p)),
+        TyExpr::Map(k, v, _) => mentions_param(k, p) || mentions_param(v, p),
+        TyExpr::User(_, args) | TyExpr::Lib(_, args) => args.iter().any(|t| mentions_param(t, p)),
+    }
+}
+
+/// lifetime and const parameters must be used: give them a field each
+fn use_lifetimes_and_consts(td: &mut TypeDef) {
+    let mut extra = vec![];
+    for l in &td.lifetimes {
+        extra.push(Field { ident: Some(format!("borrowed_{}", l.trim_start_matches('\''))), ty: TyExpr::Lib("&", vec![TyExpr::Prim(if l == "'a" { "'a str" } else { "'static str" })]), ..Field::default() });
+    }
+    for c in &td.consts {
+        let elem = td.params.first().map(|p| TyExpr::Param(p.name.clone())).unwrap_or(TyExpr::Prim("u8"));
+        extra.push(Field { ident: Some(format!("array_{}", c.to_lowercase())), ty: TyExpr::Lib("[_; N]", vec![elem]), ..Field::default() });
+    }
+    if extra.is_empty() {
+        return;
+    }
+    match &mut td.body {
+        Body::Named(fs) => fs.extend(extra),
+        Body::Tuple(fs) => fs.extend(extra.into_iter().map(|f| Field { ident: None, ..f })),
+        Body::Newtype(f) => {
+            let first = std::mem::take(f);
+            let mut v = vec![first];
+            v.extend(extra.into_iter().map(|f| Field { ident: None, ..f }));
+            td.body = Body::Tuple(v);
+        }
+        Body::Unit => td.body = Body::Named(extra),
+        Body::Enum(vs) => {
+            let untagged_pos = vs.iter().position(|v| v.untagged).unwrap_or(vs.len());
+            vs.insert(untagged_pos, Variant { ident: "UsesGenerics".into(), body: VBody::Named(extra), ..Variant::default() });
+        }
     }
 }
 
@@ -983,12 +1093,19 @@ pub fn gen_module(words: &[u32], profile: &Profile, name: &str) -> Module {
     for (i, td) in cx.types.iter().enumerate() {
         if td.params.is_empty() {
             insts.push(TyExpr::User(i, vec![]));
+        } else if td.params.iter().all(|p| p.concrete.is_some()) {
+            insts.push(TyExpr::User(i, td.params.iter().map(|p| p.concrete.clone().unwrap()).collect()));
         } else {
             let ninst = 2 + t.choose(2);
             for k in 0..ninst {
                 let mut args = vec![];
-                for _ in &td.params {
-                    let user_cands: Vec<usize> = (0..i).filter(|j| cx.types[*j].params.is_empty()).collect();
+                for p in &td.params {
+                    // a concretised parameter is instantiated with its concrete type
+                    if let Some(c) = &p.concrete {
+                        args.push(c.clone());
+                        continue;
+                    }
+                    let user_cands: Vec<usize> = (0..i).filter(|j| cx.types[*j].params.is_empty() && cx.types[*j].lifetimes.is_empty() && cx.types[*j].consts.is_empty()).collect();
                     if !user_cands.is_empty() && t.pct(35) {
                         args.push(TyExpr::User(*t.pick(&user_cands), vec![]));
                     } else {
